@@ -2,9 +2,9 @@ package main
 
 import (
 	"fmt"
-	"os"
 	"go/constant"
 	"go/types"
+	"os"
 	"sort"
 	"strings"
 
@@ -41,14 +41,14 @@ type Row struct {
 	// table TabG; TabEnv binds the dispatcher's reads of "the current
 	// element" to this element's constants; Sel is the selector function a
 	// nested row was returned by
-	TabG   *ssa.Global
-	TabK   int
-	TabEnv map[ssa.Value]*Org
+	TabG    *ssa.Global
+	TabK    int
+	TabEnv  map[ssa.Value]*Org
 	TabElem *SV
-	Sel    *ssa.Function
+	Sel     *ssa.Function
 	// Other: number of conditions on the way to the row that are not
 	// dispatch predicates (0 in a dispatcher made of keyword tests only)
-	Other  int
+	Other int
 }
 
 func (r Row) Name() string {
